@@ -5,17 +5,20 @@
 //! MAX_STREAM_DATA / MAX_STREAMS values contained in packets this connection *accepted*
 //! (acceptance ledger of the crypto tap). Every STREAM / RESET_STREAM frame the connection seals
 //! (sender ledger) is checked against the ledger at that very instant.
+//!
+//! The last clause (the locally configured send window) has its own oracle, `SendWindowOracle`.
 
 use std::collections::BTreeMap;
 
 use quinn_proto::Side;
 
-use crate::app::Workload;
+use crate::app::{SState, Workload};
 use crate::cfgs::TKnobs;
 use crate::chooser::Chooser;
 use crate::runner::{Family, PropSpec, RunCtx, RunOut};
 use crate::scen::{Basic, BasicOpts, Oracle};
 use crate::tap::NO_INC;
+use crate::util::Ranges;
 use crate::wire::{self, Frame, Space};
 use crate::world::World;
 
@@ -257,6 +260,95 @@ impl Oracle for CreditOracle {
     }
 }
 
+/// The send_window clause: a write() that accepts bytes never leaves more than the configured
+/// `send_window` bytes written-and-unacknowledged on the connection.
+///
+/// Model (a lower bound of the true amount, so the check cannot raise a false alarm): for every
+/// stream that has not been reset or abandoned, bytes accepted by write() minus the bytes of
+/// [0, written) carried in some packet of this connection that a peer ACK frame *accepted by this
+/// connection* covers. The endpoint itself may know of fewer acknowledged bytes (it forgets
+/// packets it declared lost), never of more.
+pub struct SendWindowOracle {
+    pub server: TKnobs,
+    pub client: TKnobs,
+    seen: usize,
+    /// (connection, Data-space packet number) → stream ranges sealed in it
+    sealed: BTreeMap<(u32, u64), Vec<(u64, u64, u64)>>,
+    acked: BTreeMap<(u32, u64), Ranges>,
+    prev_written: BTreeMap<u32, u64>,
+    pub writes_checked: u64,
+    pub tight: u64,
+    pub lowered_below_unacked: u64,
+}
+
+impl SendWindowOracle {
+    pub fn new(server: TKnobs, client: TKnobs) -> Self {
+        Self { server, client, seen: 0, sealed: BTreeMap::new(), acked: BTreeMap::new(), prev_written: BTreeMap::new(), writes_checked: 0, tight: 0, lowered_below_unacked: 0 }
+    }
+}
+
+impl Oracle for SendWindowOracle {
+    fn after_step(&mut self, w: &mut World, wl: &Workload) {
+        {
+            let tap = w.tap.clone();
+            let t = tap.lock().unwrap();
+            for p in &t.pkts[self.seen..] {
+                if p.inc == NO_INC || !matches!(p.space, Space::OneRtt | Space::ZeroRtt) {
+                    continue;
+                }
+                let (frames, _) = wire::frames(&p.payload);
+                if p.enc {
+                    let v: Vec<(u64, u64, u64)> = frames.iter().filter_map(|f| if let Frame::Stream { id, offset, len, .. } = f { Some((*id, *offset, offset + *len as u64)) } else { None }).collect();
+                    if !v.is_empty() {
+                        self.sealed.entry((p.inc, p.pn)).or_default().extend(v);
+                    }
+                } else if p.ok {
+                    for f in &frames {
+                        let Frame::Ack { ranges, .. } = f else { continue };
+                        for &(lo, hi) in ranges {
+                            let keys: Vec<(u32, u64)> = self.sealed.range((p.inc, lo)..=(p.inc, hi)).map(|(k, _)| *k).collect();
+                            for k in keys {
+                                for (sid, a, b) in self.sealed.remove(&k).unwrap() {
+                                    self.acked.entry((p.inc, sid)).or_insert_with(Ranges::new).insert(a, b);
+                                }
+                            }
+                        }
+                    }
+                }
+            }
+            self.seen = t.pkts.len();
+        }
+        for (inc, s) in &wl.sides {
+            let prev = self.prev_written.get(inc).copied().unwrap_or(0);
+            if s.bytes_written == prev {
+                continue;
+            }
+            self.prev_written.insert(*inc, s.bytes_written);
+            if s.early || wl.unchecked.contains(inc) {
+                continue;
+            }
+            let window = wl.send_window_set.get(inc).copied().unwrap_or(if s.is_client { self.client.send_window } else { self.server.send_window });
+            let mut unacked = 0u64;
+            for (sid, st) in &s.sends {
+                if matches!(st.state, SState::ResetCalled(_) | SState::StoppedReset(_) | SState::Abandoned) {
+                    continue;
+                }
+                let a = self.acked.get(&(*inc, *sid)).map_or(0, |r| r.covered_below(st.written));
+                unacked += st.written - a;
+            }
+            self.writes_checked += 1;
+            if unacked == window {
+                self.tight += 1;
+                w.probes.hit("send_window_exactly_full_after_write");
+            }
+            if unacked > window {
+                w.violate("write-accepted-beyond-send-window", format!("inc{} write() accepted bytes (total written {} -> {}) leaving at least {} bytes written and not acknowledged, but the configured send window is {}", inc, prev, s.bytes_written, unacked, window));
+                return;
+            }
+        }
+    }
+}
+
 fn run(ch: Chooser, ctx: &RunCtx, mut opts: BasicOpts, tiny: bool) -> RunOut {
     let mut w = World::from_ctx(ch, ctx);
     opts.op_kinds = vec![0, 1, 2, 3, 4, 2, 4, 9];
@@ -277,6 +369,7 @@ fn run(ch: Chooser, ctx: &RunCtx, mut opts: BasicOpts, tiny: bool) -> RunOut {
     let mut sc = Basic::build(&mut w, opts);
     let or = CreditOracle::new(sc.server_knobs.clone(), sc.client_knobs.clone());
     sc.oracles.push(Box::new(or));
+    sc.oracles.push(Box::new(SendWindowOracle::new(sc.server_knobs.clone(), sc.client_knobs.clone())));
     w.run(&mut sc);
     super::c01::end_checks(&mut w, &sc, false);
     let mut o = RunOut::from_world(&mut w);
@@ -302,7 +395,7 @@ pub fn spec() -> PropSpec {
         thorough_worlds: 600_000,
         panic_is_violation: false,
         rule: "each world = stream workloads under limit configurations drawn from {0,1,2, values around 2^6 and 2^14, defaults}, run-time window / stream-limit changes, and network faults that delay, reorder, duplicate and drop the credit-carrying packets; non-trivial = a fault fired or >1 connection; distinct = distinct abstract-event signature",
-        assumptions: vec!["initial limits are the peer's configured TransportConfig values (the TLS-carried transport parameters are not decoded by the harness)", "acked-bytes accounting for the send_window clause is not modelled; the clause is covered only through write() never exceeding flow-control credit"],
+        assumptions: vec!["initial limits are the peer's configured TransportConfig values (the TLS-carried transport parameters are not decoded by the harness)", "the send_window clause is judged against a lower bound of the unacknowledged amount (bytes accepted by write() on streams not reset, minus bytes carried in packets that an ACK frame accepted by the connection covers): the endpoint may know of fewer acknowledged bytes than that, never more, so an excess is always real"],
         real: super::REAL.to_vec(),
         stub: super::STUB.to_vec(),
     }
